@@ -25,9 +25,16 @@ type Env struct {
 	results []Value
 	resTup  *types.Tuple
 	depth   int
-	cur     *State // the current state while compiling inside old(...)
-	binders int    // number of enclosing genuine (non-Skolemised) quantifiers
-	entryWm *Term  // watermark at entry of the function under verification (for owned())
+	cur     *State                 // the current state while compiling inside old(...)
+	binders int                    // number of enclosing genuine (non-Skolemised) quantifiers
+	entryWm *Term                  // watermark at entry of the function under verification (for owned())
+	cells   map[string]cellBinding // captured variables of a closure whose contract is applied at a call site
+}
+
+// cellBinding: the cell of a captured variable (closures capture by reference) and the type of its contents.
+type cellBinding struct {
+	ref *Term
+	t   types.Type
 }
 
 func (e *Env) with(name string, v Value) *Env {
@@ -206,6 +213,9 @@ func (env *Env) ident(name string) Value {
 			}
 		}
 		return v
+	}
+	if cb, ok := env.cells[name]; ok {
+		return env.ex.readLoc(env.st, &Loc{Kind: LRef, Ref: cb.ref, Keys: refKeys(cb.t), T: cb.t})
 	}
 	switch name {
 	case "true":
